@@ -1,3 +1,5 @@
 SPECIFICATION Spec
-CONSTANT Writes = "asShipped"
+CONSTANTS
+  Writes = "asShipped"
+  FullMasks = FALSE
 INVARIANT FrameObserved
